@@ -74,6 +74,26 @@ def expressions():
     ]
 
 
+def vendor_lower():
+    """A database function of a third-party package that happens to be
+    called like a Django one (vendorlib.functions.Lower)."""
+    import sys
+    import types
+    from django.db.models import Func
+    mod = sys.modules.get('vendorlib.functions')
+    if mod is None or not hasattr(mod, 'Lower'):
+        if 'vendorlib' not in sys.modules:
+            pm = types.ModuleType('vendorlib')
+            pm.__path__ = []
+            sys.modules['vendorlib'] = pm
+        mod = types.ModuleType('vendorlib.functions')
+        cls = type('Lower', (Func,), {'__module__': 'vendorlib.functions',
+                                      'function': 'TRIM', 'arity': 1})
+        mod.Lower = cls
+        sys.modules['vendorlib.functions'] = mod
+    return mod.Lower
+
+
 def index_variants(depth=2):
     """(label, models.Index) over every Index option."""
     from django.db import models
